@@ -350,7 +350,11 @@ impl GraphEngine {
     // T203: HNSW Public API
     pub fn insert_vector(&self, id: InternalNodeId, vector: Vec<f32>) -> Result<()> {
         // Catalog before pager, the order the commit path uses.
+        #[cfg(nervusdb_verif)]
+        crate::verif_hooks::lock("index_catalog", "lock", 0);
         let mut catalog = self.index_catalog.lock().unwrap();
+        #[cfg(nervusdb_verif)]
+        let _vt_catalog = crate::verif_hooks::lock_acquired("index_catalog", "lock");
         #[cfg(nervusdb_verif)]
         crate::verif_hooks::lock("pager", "write", 0);
         let mut pager = self.pager.write().unwrap();
